@@ -41,12 +41,16 @@ type c12Plan struct {
 	// RefeedDeals: the operator reads the deals operation a second time on the running machine (the first result got
 	// lost on its way to the node) and carries the second result; twin and restarted machine alike
 	RefeedDeals bool `json:"refeed_deals,omitempty"`
+	// AgeDays > 0: the machine (and every node process) stays switched off for that many days after the ceremony; then
+	// it is restarted, its log replayed, and a batch is signed: a finished round can be taken up again however old it is
+	AgeDays int `json:"age_days,omitempty"`
 }
 
 func c12Gen(rt *rapid.T) c12Plan {
 	nt := rapid.SampledFrom([][2]int{{2, 2}, {3, 2}, {3, 3}, {4, 3}}).Draw(rt, "nt")
 	p := c12Plan{N: nt[0], T: nt[1], P: rapid.IntRange(0, nt[0]-1).Draw(rt, "p"), Prior: rapid.Bool().Draw(rt, "prior"), Reseed: rapid.IntRange(0, 2).Draw(rt, "reseed") == 0}
 	p.RefeedDeals = rapid.IntRange(0, 2).Draw(rt, "refeedDeals") == 0
+	p.AgeDays = rapid.SampledFrom([]int{0, 0, 1, 8, 30, 400}).Draw(rt, "ageDays")
 	k := rapid.IntRange(1, 3).Draw(rt, "nrestarts")
 	seen := map[int]bool{}
 	for i := 0; i < k; i++ {
@@ -74,6 +78,16 @@ type c12Obs struct {
 	RespPublished []byte
 	RespReplayed  []byte
 	RespFile      string
+	SignedLater   bool
+}
+
+func allIdle(states []string) bool {
+	for _, s := range states {
+		if s != "stage_signing_idle" {
+			return false
+		}
+	}
+	return len(states) > 0
 }
 
 func c12Execute(p c12Plan, withRestarts bool, root string) (obs c12Obs) {
@@ -291,10 +305,22 @@ func c12Execute(p c12Plan, withRestarts bool, root string) (obs c12Obs) {
 	for i := range w.Nodes {
 		obs.States = append(obs.States, w.StateOf(i, round))
 	}
-	if withRestarts && obs.RespFile != "" {
+	if p.AgeDays > 0 {
+		if err := w.Age(time.Duration(p.AgeDays) * 24 * time.Hour); err != nil {
+			obs.Err = fmt.Errorf("restarting the nodes %d days later: %w", p.AgeDays, err)
+			return
+		}
+	}
+	if withRestarts && (obs.RespFile != "" || p.AgeDays > 0) {
 		// one more restart after everything: the replay writes the result files again
-		_ = os.Remove(obs.RespFile)
-		if err := restart("after the ceremony"); err != nil {
+		if obs.RespFile != "" {
+			_ = os.Remove(obs.RespFile)
+		}
+		why := "after the ceremony"
+		if p.AgeDays > 0 {
+			why = fmt.Sprintf("%d days after the ceremony", p.AgeDays)
+		}
+		if err := restart(why); err != nil {
 			obs.Err = err
 			return
 		}
@@ -304,6 +330,50 @@ func c12Execute(p c12Plan, withRestarts bool, root string) (obs c12Obs) {
 				obs.RespReplayed = res.ResultMsgs[0].Data
 			}
 		}
+	}
+	if p.AgeDays > 0 && allIdle(obs.States) {
+		// the round is used: a batch proposed now is signed by everybody, the restarted machine included
+		if err := w.ProposeBatch(0, round, map[string][]byte{"doc": []byte("signed long after the ceremony")}); err != nil {
+			obs.Err = fmt.Errorf("proposing a batch %d days after the ceremony: %w", p.AgeDays, err)
+			return
+		}
+		for r := 0; r < 40; r++ {
+			progress := w.PollAll()
+			for i := range w.Nodes {
+				ops, _ := w.Nodes[i].Operations()
+				for _, op := range ops {
+					res, err := w.Answer(i, op)
+					if err != nil {
+						obs.Err = fmt.Errorf("participant %d signing %d days after the ceremony: %w", i, p.AgeDays, err)
+						return
+					}
+					if i == p.P && res != nil && res.Event != "event_signing_partial_sign_received" {
+						obs.Err = fmt.Errorf("participant %d's machine answered the signing request %d days after the ceremony with %s", i, p.AgeDays, res.Event)
+						return
+					}
+					progress++
+				}
+			}
+			if progress == 0 {
+				break
+			}
+		}
+		sigs, _ := w.Signatures(0, round)
+		signed := false
+		for _, batch := range sigs {
+			for _, entries := range batch {
+				for _, e := range entries {
+					if len(e.Signature) > 0 {
+						signed = true
+					}
+				}
+			}
+		}
+		if !signed {
+			obs.Err = fmt.Errorf("the batch proposed %d days after the ceremony was not signed (states %v)", p.AgeDays, obs.States)
+			return
+		}
+		obs.SignedLater = true
 	}
 	kr, err := w.Keyring(p.P, round)
 	if err == nil && kr != nil {
@@ -363,6 +433,9 @@ func c12Run(t *testing.T, st *vstat.Stats, p c12Plan) *viol {
 	if p.RefeedDeals {
 		st.Class("deals-operation-read-twice")
 	}
+	if obs.SignedLater {
+		st.Class(fmt.Sprintf("restarted-and-signed-%d-days-after-the-ceremony", p.AgeDays))
+	}
 	if obs.RespReplayed != nil {
 		st.Class("responses-rewritten-by-a-final-replay-compared")
 	}
@@ -407,7 +480,7 @@ func TestC12(t *testing.T) {
 						if job%sn != si {
 							continue
 						}
-						p := c12Plan{N: nt[0], T: nt[1], P: part, Restarts: []c12Restart{{op, mode}}, Prior: job%3 == 0}
+						p := c12Plan{N: nt[0], T: nt[1], P: part, Restarts: []c12Restart{{op, mode}}, Prior: job%3 == 0, AgeDays: []int{0, 0, 0, 9, 45}[job%5]}
 						st.Eval()
 						report(t, st, "all-points", c12Run(t, st, p), p)
 					}
